@@ -3,15 +3,15 @@
 From ApolloVerif Require Import Base.Chars Base.Utf8.
 
 (* u8::is_ascii_alphabetic / is_ascii_alphanumeric *)
-Definition byte_is_ascii_alphabetic (b : N) : bool :=
+Definition nm_byte_is_ascii_alphabetic (b : N) : bool :=
   ((65 <=? b) && (b <=? 90)) || ((97 <=? b) && (b <=? 122)).
-Definition byte_is_ascii_digit (b : N) : bool := (48 <=? b) && (b <=? 57).
-Definition byte_is_ascii_alphanumeric (b : N) : bool :=
-  byte_is_ascii_alphabetic b || byte_is_ascii_digit b.
+Definition nm_byte_is_ascii_digit (b : N) : bool := (48 <=? b) && (b <=? 57).
+Definition nm_byte_is_ascii_alphanumeric (b : N) : bool :=
+  nm_byte_is_ascii_alphabetic b || nm_byte_is_ascii_digit b.
 
 (* Name::is_name_start / is_name_continue *)
-Definition name_byte_is_start (b : N) : bool := byte_is_ascii_alphabetic b || (b =? 95).
-Definition name_byte_is_continue (b : N) : bool := byte_is_ascii_alphanumeric b || (b =? 95).
+Definition name_byte_is_start (b : N) : bool := nm_byte_is_ascii_alphabetic b || (b =? 95).
+Definition name_byte_is_continue (b : N) : bool := nm_byte_is_ascii_alphanumeric b || (b =? 95).
 
 (* the `while i < bytes.len()` loop from i = 1: every remaining byte, in order, first failure returns false *)
 Fixpoint name_bytes_loop (rest : list N) : bool :=
